@@ -19,6 +19,7 @@ from pvc.sym import And, Implies, Not, Or
 
 from .C01 import assume_sep, mk_streams, split_kinds
 from .C08 import check_wf
+from . import unbounded
 from .shared import COLD, HOT, PT, tol
 
 LEVEL = "exploration"
@@ -141,6 +142,7 @@ def obligations():
                           bound="1..2 streams; temperatures and contributions symbolic, heat-capacity flow rates from {1, 3} kW/K",
                           doc=f"ROWINV, CONTENT, SPANS on the {nm}-temperature table" + ("" if star else "; SAME (targets implied by the known heat recovery)"))
         obs += split(base, streams=[1]) + split(base, streams=[2], s0_dir=D, s1_dir=D)
+    obs.append(unbounded.cascade_obligation("C05.cascade.rows.u"))
     obs.append(Obligation("C05.projection.b", ob_projection, kind="bounded", bound="tables of 2..4 rows with monotone composite curves, all values symbolic",
                           functions=[pta._insert_temperature_interval_into_pt_at_constant_h, pta._get_T_start_on_opposite_cc], max_paths=100000,
                           doc="PROJECTION: inserted rows inside the table and on the opposite curve; curves unchanged"))
